@@ -1,4 +1,4 @@
-package gopacket
+package tcpreader
 
 // Native implementations of the engine intrinsics for counterexample replay:
 // every "symbolic" value is read from the solver's model.
